@@ -514,6 +514,26 @@ def explicit(tier, seed):
                         case = base(v, cred)
                         case[who][dim] = [x]
                         yield case
+    # extended master secret / encrypt-then-MAC flags x every version the
+    # pair can end up in (SSLv3 knows neither)
+    for lo, hi in (((3, 0), (3, 0)), ((3, 0), (3, 1)), ((3, 1), (3, 1)),
+                   ((3, 0), (3, 3)), ((3, 3), (3, 3))):
+        for cv in (((3, 0), (3, 4)), ((3, 0), (3, 3)), ((3, 0), (3, 1)),
+                   ((3, 0), (3, 0)), (lo, hi)):
+            for use_c, req_c, use_s, req_s in (
+                    (True, False, True, True), (True, True, True, False),
+                    (False, False, True, True), (True, True, False, False),
+                    (True, False, True, False), (False, False, False, False)):
+                case = base((lo, hi), "rsa")
+                case["c"]["minVersion"], case["c"]["maxVersion"] = \
+                    list(cv[0]), list(cv[1])
+                case["c"]["useExtendedMasterSecret"] = use_c
+                case["c"]["requireExtendedMasterSecret"] = req_c
+                case["s"]["useExtendedMasterSecret"] = use_s
+                case["s"]["requireExtendedMasterSecret"] = req_s
+                case["c"]["useEncryptThenMAC"] = use_c
+                case["s"]["useEncryptThenMAC"] = req_s or use_s
+                yield case
     # external PSK: every pair of key-exchange-mode lists
     modes = [["psk_dhe_ke"], ["psk_ke"], ["psk_ke", "psk_dhe_ke"],
              ["psk_dhe_ke", "psk_ke"]]
